@@ -228,12 +228,12 @@ Theorem direct_iter_is_view_order (t : tensor A) : tensor_inv t ->
 Proof.
   intros Hinv. unfold view_elems. apply sequence_Some. apply nth_error_ext. intros k.
   cbn [view_of_tensor v_shape v_get].
-  destruct Hinv as [Hv [Hs Hl]].
+  pose proof Hinv as [Hv [Hs Hl]].
   destruct (Nat.lt_ge_cases k (length (t_data t))) as [Hk|Hk].
   - destruct (all_indexes_onto (lens_of (t_shape t)) k) as [idx [Hr [Hf Hn]]];
       [apply Hv|unfold elements in Hl; lia|].
     rewrite !nth_error_map', Hn. cbn [option_map].
-    rewrite t_get_flat by (repeat split; assumption). rewrite Hf, Nat2N.id.
+    rewrite t_get_flat by assumption. rewrite Hf, Nat2N.id.
     destruct (nth_error_lt_Some (t_data t) k Hk) as [x Hx]. rewrite Hx. reflexivity.
   - rewrite !nth_error_map'.
     replace (nth_error (t_data t) k) with (@None A) by (symmetry; apply nth_error_None; exact Hk).
@@ -267,7 +267,7 @@ Theorem container_is_view (v : tview A) l m : view_wf v -> view_elems v = Some l
   op_shape (OT m) = op_shape (OV v) /\ op_iter (OT m) = op_iter (OV v) /\ tensor_inv m /\
   forall idx, in_range idx (lens_of (v_shape v)) -> op_at (OT m) idx = op_at (OV v) idx.
 Proof.
-  intros Hwf Hl Hm. destruct (from_agrees _ _ _ Hm) as [Hinv [Hs Hd]].
+  intros Hwf Hl Hm. apply from_agrees in Hm. destruct (try_from_inv _ _ _ Hm) as [Hinv [Hs Hd]].
   cbn [op_shape op_iter op_at]. repeat split; auto; try apply Hinv; try congruence.
   intros idx Hr. rewrite t_get_flat by (auto; rewrite Hs; exact Hr).
   rewrite Hs, Hd. apply view_elems_nth; assumption.
